@@ -1,41 +1,51 @@
 import OpusProofs.CeltHdrStep
+import OpusProofs.CeltHdrStorage
 /-
   OpusProofs.CeltHdrFlags — silence flag, post-filter parameters, intra flag: decoder reads what the encoder wrote.
 -/
 namespace OpusProofs.CeltHdr
 open Opus Opus.RangeCoder Opus.CeltSymsEnc
 
-/-- the model only appends calls -/
-def Ext (s s' : St) : Prop := ∃ δ, s'.ops = s.ops ++ δ
+/-- the model only appends calls, and (in the stages this relation is used for) none of them is `ec_enc_shrink` -/
+def Ext (s s' : St) : Prop := ∃ δ, s'.ops = s.ops ++ δ ∧ ∀ op ∈ δ, NotShrink op
 
-theorem Ext.refl (s : St) : Ext s s := ⟨[], by simp⟩
+theorem Ext.refl (s : St) : Ext s s := ⟨[], by simp, by simp⟩
 theorem Ext.trans {a b c : St} (h1 : Ext a b) (h2 : Ext b c) : Ext a c := by
-  obtain ⟨x, hx⟩ := h1; obtain ⟨y, hy⟩ := h2
-  exact ⟨x ++ y, by rw [hy, hx, List.append_assoc]⟩
-theorem Ext.emit (s : St) (op : Op) : Ext s (s.emit op) := ⟨[op], rfl⟩
-theorem Ext.pop (s : St) : Ext s s.pop.2 := ⟨[], by simp [pop_ops]⟩
+  obtain ⟨x, hx, nx⟩ := h1; obtain ⟨y, hy, ny⟩ := h2
+  refine ⟨x ++ y, by rw [hy, hx, List.append_assoc], ?_⟩
+  intro op hop
+  rcases List.mem_append.mp hop with h | h
+  · exact nx op h
+  · exact ny op h
+theorem Ext.emit (s : St) (op : Op) (h : NotShrink op) : Ext s (s.emit op) :=
+  ⟨[op], rfl, by intro o ho; simp at ho; rw [ho]; exact h⟩
+theorem Ext.pop (s : St) : Ext s s.pop.2 := ⟨[], by simp [pop_ops], by simp⟩
 
 theorem prefix_of_ext {w : World} {P0 : List Op} {s s' : St} (h : Ext s s') (hp : w.IsPrefix (P0 ++ s'.ops)) :
     w.IsPrefix (P0 ++ s.ops) := by
-  obtain ⟨δ, hδ⟩ := h
+  obtain ⟨δ, hδ, _⟩ := h
   rw [hδ, ← List.append_assoc] at hp
   exact World.isPrefix_of_append hp
 
+/-- no shrink in between: the encoder's `storage` is unchanged -/
+theorem storage_of_ext {w : World} {P0 : List Op} {s s' : St} {d d' : Dec} (h : Ext s s') (hs : Here w P0 s d)
+    (hs' : Here w P0 s' d') : s'.e.storage = s.e.storage := by
+  obtain ⟨δ, hδ, hn⟩ := h
+  rw [hs'.enc, hs.enc, hδ, ← List.append_assoc]
+  unfold World.encAt
+  rw [encRun_append (P0 ++ s.ops) δ]
+  exact encRun_storage δ _ hn
+
 /-! ### Silence flag (frame not silent) -/
 
-theorem silenceShrink_ext (cfg : EncCfg) (t : Int) (s : St) : Ext s (silenceShrink cfg t s).2 := by
-  unfold silenceShrink; split
-  · exact Ext.emit _ _
-  · exact Ext.refl s
-
-theorem encSilence_ext (cfg : EncCfg) (s : St) : Ext s (encSilence cfg s).2.2.2 := by
-  unfold encSilence
+theorem encSilence_ext (cfg : EncCfg) (s : St) (hsil : (encSilence cfg s).1 = 0) : Ext s (encSilence cfg s).2.2.2 := by
+  unfold encSilence at hsil ⊢
   split
-  · split
-    · obtain ⟨δ, hδ⟩ := ((Ext.pop s).trans (Ext.emit _ (.bitLogp 1 15))).trans
-        (silenceShrink_ext cfg (tell s.e) (s.pop.2.emit (.bitLogp 1 15)))
-      exact ⟨δ, hδ⟩
-    · exact (Ext.pop s).trans (Ext.emit _ _)
+  · rename_i h1
+    rw [if_pos h1] at hsil
+    split
+    · rename_i hv; rw [if_pos hv] at hsil; simp at hsil
+    · exact (Ext.pop s).trans (Ext.emit _ _ (by exact True.intro))
   · exact Ext.refl s
 
 /-- The silence flag of a non-silent frame: the encoder writes `0` with `logp = 15` iff `tell == 1`, the decoder reads
@@ -47,7 +57,7 @@ theorem silence0_sync {w : World} {P0 : List Op} {s : St} {d : Dec} (h : Here w 
     (Opus.CeltSyms.readSilence totD d).1 = 0 ∧
     Here w P0 (encSilence cfg s).2.2.2 (Opus.CeltSyms.readSilence totD d).2.1 ∧ (encSilence cfg s).2.2.1 = tell s.e ∧
     (encSilence cfg s).2.1 = cfg.size ∧ tell d = tell s.e := by
-  have hpre := prefix_of_ext (encSilence_ext cfg s) hp
+  have hpre := prefix_of_ext (encSilence_ext cfg s hsil) hp
   obtain ⟨ht, _, _, _⟩ := h.tells hpre
   simp only [Opus.CeltSyms.readSilence, ht, show ¬ tell s.e ≥ totD by omega, if_false]
   unfold encSilence at hsil hp ⊢
@@ -64,37 +74,124 @@ theorem silence0_sync {w : World} {P0 : List Op} {s : St} {d : Dec} (h : Here w 
 
 /-! ### Intra flag -/
 
-/-- the intra flag as `encCoarse` writes it -/
-def encIntra (totE : Int) (s : St) : Nat × St :=
-  if tell s.e + 3 ≤ totE then
-    ((if s.pop.1 ≠ 0 then 1 else 0 : Nat), s.pop.2.emit (.bitLogp (if s.pop.1 ≠ 0 then 1 else 0) 3))
-  else (0, s)
-
 theorem encIntra_ext (totE : Int) (s : St) : Ext s (encIntra totE s).2 := by
   unfold encIntra; split
-  · exact (Ext.pop s).trans (Ext.emit _ _)
+  · exact (Ext.pop s).trans (Ext.emit _ _ (by exact True.intro))
   · exact Ext.refl s
 
-theorem intra_sync {w : World} {P0 : List Op} {s : St} {d : Dec} (h : Here w P0 s d) (totE totD : Int)
+/-- `tvD` is the decoder's C local `tell` (possibly stale). -/
+theorem intra_sync {w : World} {P0 : List Op} {s : St} {d : Dec} (h : Here w P0 s d) (totE totD tvD : Int)
     (hp : w.IsPrefix (P0 ++ (encIntra totE s).2.ops))
-    (hbud : (tell s.e + 3 ≤ totE) ↔ (tell s.e + 3 ≤ totD)) :
-    (Opus.CeltSyms.readIntra totD (tell d) d).1 = (encIntra totE s).1 ∧
-    Here w P0 (encIntra totE s).2 (Opus.CeltSyms.readIntra totD (tell d) d).2.1 := by
-  have hpre := prefix_of_ext (encIntra_ext totE s) hp
-  obtain ⟨ht, _, _, _⟩ := h.tells hpre
-  simp only [Opus.CeltSyms.readIntra, encIntra, ht] at hp ⊢
+    (hbud : (tell s.e + 3 ≤ totE) ↔ (tvD + 3 ≤ totD)) :
+    (Opus.CeltSyms.readIntra totD tvD d).1 = (encIntra totE s).1 ∧
+    Here w P0 (encIntra totE s).2 (Opus.CeltSyms.readIntra totD tvD d).2.1 := by
+  simp only [Opus.CeltSyms.readIntra, encIntra] at hp ⊢
   by_cases hc : tell s.e + 3 ≤ totE
   · simp only [hc, hbud.mp hc, if_true] at hp ⊢
     exact h.pop.emit_bit (if s.pop.1 ≠ 0 then 1 else 0) 3 (by split <;> omega) hp
-  · have hc' : ¬ tell s.e + 3 ≤ totD := fun hh => hc (hbud.mpr hh)
+  · have hc' : ¬ tvD + 3 ≤ totD := fun hh => hc (hbud.mpr hh)
     simp only [hc, hc', if_false]
     exact ⟨trivial, h⟩
 
-/-! ### Transient: extension fact -/
+/-! ### Transient flag -/
 
 theorem encTransient_ext (cfg : EncCfg) (totE : Int) (s : St) : Ext s (encTransient cfg totE s).2 := by
   unfold encTransient; split
-  · exact (Ext.pop s).trans (Ext.emit _ _)
+  · exact (Ext.pop s).trans (Ext.emit _ _ (by exact True.intro))
   · exact Ext.refl s
+
+/-- `tvD` is the decoder's C local `tell`, which may be stale (it is only refreshed inside the blocks that read). -/
+theorem transient_sync {w : World} {P0 : List Op} {s : St} {d : Dec} (h : Here w P0 s d) (cfg : EncCfg)
+    (totE totD tvD : Int)
+    (hp : w.IsPrefix (P0 ++ (encTransient cfg totE s).2.ops))
+    (hbud : (tell s.e + 3 ≤ totE) ↔ (tvD + 3 ≤ totD)) :
+    (Opus.CeltSyms.readTransient cfg.LM totD tvD d).1 = (encTransient cfg totE s).1 ∧
+    Here w P0 (encTransient cfg totE s).2 (Opus.CeltSyms.readTransient cfg.LM totD tvD d).2.2.1 ∧
+    ((Opus.CeltSyms.readTransient cfg.LM totD tvD d).2.1 = tell (Opus.CeltSyms.readTransient cfg.LM totD tvD d).2.2.1 ∨
+     ((Opus.CeltSyms.readTransient cfg.LM totD tvD d).2.1 = tvD ∧ (encTransient cfg totE s).2 = s)) := by
+  simp only [Opus.CeltSyms.readTransient, encTransient] at hp ⊢
+  by_cases hc : cfg.LM > 0 ∧ tell s.e + 3 ≤ totE
+  · have hc' : cfg.LM > 0 ∧ tvD + 3 ≤ totD := ⟨hc.1, hbud.mp hc.2⟩
+    simp only [hc, hc', and_self, if_true] at hp ⊢
+    obtain ⟨e1, e2⟩ := h.pop.emit_bit (if s.pop.1 ≠ 0 then 1 else 0) 3 (by split <;> omega) hp
+    exact ⟨e1, e2, Or.inl trivial⟩
+  · have hc' : ¬ (cfg.LM > 0 ∧ tvD + 3 ≤ totD) := fun hh => hc ⟨hh.1, hbud.mpr hh.2⟩
+    simp only [hc, hc', if_false]
+    exact ⟨trivial, h, Or.inr ⟨trivial, trivial⟩⟩
+
+/-! ### Post-filter -/
+
+theorem pfOnWrite_ext (s : St) : Ext s (pfOnWrite s).2 := by
+  unfold pfOnWrite
+  simp only []
+  exact ((((((((Ext.pop _).trans (Ext.emit _ _ (by exact True.intro))).trans (Ext.pop _)).trans (Ext.emit _ _ (by exact True.intro))).trans (Ext.pop _)).trans
+    (Ext.emit _ _ (by exact True.intro))).trans (Ext.pop _)).trans (Ext.emit _ _ (by exact True.intro)))
+
+theorem encPostFilter_ext (cfg : EncCfg) (totE tv : Int) (s : St) : Ext s (encPostFilter cfg totE tv s).2 := by
+  unfold encPostFilter
+  split
+  · split
+    · exact (Ext.pop s).trans (Ext.emit _ _ (by exact True.intro))
+    · exact ((Ext.pop s).trans (Ext.emit _ _ (by exact True.intro))).trans (pfOnWrite_ext _)
+  · exact Ext.refl s
+
+/-- The post-filter block.  `htap`: when the filter is on, the tapset — which the encoder writes without a budget
+    test — still passes the decoder's test `tell+2 <= total_bits` (guaranteed by `nbAvailableBytes > 12*C`). -/
+theorem postfilter_sync {w : World} {P0 : List Op} {s : St} {d : Dec} (h : Here w P0 s d) (cfg : EncCfg)
+    (totE totD tv : Int)
+    (hp : w.IsPrefix (P0 ++ (encPostFilter cfg totE tv s).2.ops))
+    (hbud : (tv + 16 ≤ totE) ↔ (tv + 16 ≤ totD))
+    (htap : ∀ (s3 : St) (d3 : Dec), Here w P0 s3 d3 → Ext s3 (encPostFilter cfg totE tv s).2 →
+      (encPostFilter cfg totE tv s).1.on ≠ 0 → tell s3.e + 2 ≤ totD) :
+    let r := Opus.CeltSyms.readPostFilter cfg.start totD tv d
+    let e := encPostFilter cfg totE tv s
+    r.1.on = e.1.on ∧ r.1.octave = e.1.octave ∧ r.1.pitch = e.1.pitch ∧ r.1.qg = e.1.qg ∧ r.1.tapset = e.1.tapset ∧
+    Here w P0 e.2 r.2.2.1 ∧ (r.2.1 = tell r.2.2.1 ∨ (r.2.1 = tv ∧ e.2 = s)) := by
+  intro r e
+  simp only [r, e, Opus.CeltSyms.readPostFilter, encPostFilter] at hp htap ⊢
+  by_cases hc : cfg.start = 0 ∧ tv + 16 ≤ totE
+  · have hc' : cfg.start = 0 ∧ tv + 16 ≤ totD := ⟨hc.1, hbud.mp hc.2⟩
+    simp only [hc, hc', and_self, if_true] at hp htap ⊢
+    by_cases hon : s.pop.1 = 0
+    · simp only [hon, if_true] at hp ⊢
+      obtain ⟨e1, e2⟩ := h.pop.emit_bit 0 1 (by omega) hp
+      simp only [e1, ne_eq, not_true_eq_false, if_false]
+      exact ⟨trivial, trivial, trivial, trivial, trivial, e2, Or.inl trivial⟩
+    · simp only [hon, if_false] at hp htap ⊢
+      -- flag 1, octave, pitch bits, gain, tapset
+      have hx := pfOnWrite_ext (s.pop.2.emit (.bitLogp 1 1))
+      unfold pfOnWrite at hp htap hx ⊢
+      simp only [] at hp htap hx ⊢
+      generalize hs1 : s.pop.2.emit (.bitLogp 1 1) = s1 at *
+      generalize hs2 : s1.pop.2.emit (.uint s1.pop.1.toNat 6) = s2 at *
+      generalize hs3 : s2.pop.2.emit (.bits s2.pop.1.toNat (4 + s1.pop.1.toNat)) = s3 at *
+      generalize hs4 : s3.pop.2.emit (.bits s3.pop.1.toNat 3) = s4 at *
+      have x12 : Ext s1 s2 := hs2 ▸ (Ext.pop _).trans (Ext.emit _ _ (by exact True.intro))
+      have x23 : Ext s2 s3 := hs3 ▸ (Ext.pop _).trans (Ext.emit _ _ (by exact True.intro))
+      have x34 : Ext s3 s4 := hs4 ▸ (Ext.pop _).trans (Ext.emit _ _ (by exact True.intro))
+      have x45 : Ext s4 (s4.pop.2.emit (.icdf s4.pop.1.toNat Opus.CeltSymsFrozen.tapsetIcdf 2)) := (Ext.pop _).trans (Ext.emit _ _ (by exact True.intro))
+      have x01 : Ext s s1 := hs1 ▸ (Ext.pop _).trans (Ext.emit _ _ (by exact True.intro))
+      have p4 := prefix_of_ext x45 hp
+      have p3 := prefix_of_ext x34 p4
+      have p2 := prefix_of_ext x23 p3
+      have p1 := prefix_of_ext x12 p2
+      obtain ⟨a1, a2⟩ := h.pop.emit_bit 1 1 (by omega) (hs1 ▸ p1)
+      rw [hs1] at a2
+      obtain ⟨b1, b2⟩ := a2.pop.emit_uint s1.pop.1.toNat 6 (hs2 ▸ p2)
+      rw [hs2] at b2
+      obtain ⟨c1, c2⟩ := b2.pop.emit_bits s2.pop.1.toNat (4 + s1.pop.1.toNat) (hs3 ▸ p3)
+      rw [hs3] at c2
+      obtain ⟨d1, d2⟩ := c2.pop.emit_bits s3.pop.1.toNat 3 (hs4 ▸ p4)
+      rw [hs4] at d2
+      obtain ⟨f1, f2⟩ := d2.pop.emit_icdf s4.pop.1.toNat Opus.CeltSymsFrozen.tapsetIcdf 2 hp
+      -- the decoder's tapset test
+      obtain ⟨t4, _, _, _⟩ := d2.tells p4
+      have hroom := htap s4 _ d2 x45 (by decide)
+      simp only [a1, ne_eq, Nat.succ_ne_zero, not_false_eq_true, if_true, Opus.CeltSyms.readPostFilterOn, b1, c1, d1,
+        t4, hroom, f1]
+      exact ⟨trivial, trivial, trivial, trivial, trivial, f2, Or.inl trivial⟩
+  · have hc' : ¬ (cfg.start = 0 ∧ tv + 16 ≤ totD) := fun hh => hc ⟨hh.1, hbud.mpr hh.2⟩
+    simp only [hc, hc', if_false]
+    exact ⟨trivial, trivial, trivial, trivial, trivial, h, Or.inr ⟨trivial, trivial⟩⟩
 
 end OpusProofs.CeltHdr
